@@ -22,7 +22,7 @@ import sys
 import z3
 
 from vt import symx, csym, capi, cenv, pymodel
-from vt.csym import NULL, FnPtr, StaticArray, MemSafety
+from vt.csym import NULL, FnPtr, StaticArray, MemSafety, Struct, Uninit
 from vt.oblig import Obligation
 import props.c03 as c03
 
@@ -574,6 +574,191 @@ def delegate_access_harness(ex):
     return {"state": state, "op": op}
 
 
+# ---- method-table sweep: every function a Python caller can reach through the type's method / getset / module tables ------
+def _find(n, kind, acc):
+    if isinstance(n, dict):
+        if n.get("kind") == kind:
+            acc.append(n)
+        for c in n.get("inner", []):
+            _find(c, kind, acc)
+    return acc
+
+
+def method_tables(program):
+    """[(table, python name, C function, METH flags | 'getter' | 'setter')] read from the initialisers of the current source"""
+    out = []
+    for table in ("trait_methods", "has_traits_methods", "ctraits_methods"):
+        d = program.global_decls.get(table)
+        if d is None:
+            continue
+        for e in d["inner"][0].get("inner", []):
+            strs = [x.get("value", "").strip('"') for x in _find(e, "StringLiteral", [])]
+            fns = [x["referencedDecl"]["name"] for x in _find(e, "DeclRefExpr", []) if x["referencedDecl"]["kind"] == "FunctionDecl"]
+            ints = [int(x.get("value"), 0) for x in _find(e, "IntegerLiteral", [])]
+            if strs and fns:
+                out.append((table, strs[0], fns[0], ints[0] if ints else 1))
+    for table in ("trait_properties", "has_traits_properties"):
+        d = program.global_decls.get(table)
+        if d is None:
+            continue
+        for e in d["inner"][0].get("inner", []):
+            strs = [x.get("value", "").strip('"') for x in _find(e, "StringLiteral", [])]
+            fns = [x["referencedDecl"]["name"] for x in _find(e, "DeclRefExpr", []) if x["referencedDecl"]["kind"] == "FunctionDecl"]
+            for i, f in enumerate(fns[:2]):
+                out.append((table, strs[0] if strs else "?", f, "getter" if i == 0 else "setter"))
+    return out
+
+
+class _Sweep(HasTraits):
+    a = Int(3)
+    l = List(Int)
+    p = Property(Int)
+    n = Any()
+
+    def _get_p(self):
+        return 1
+
+    def _set_p(self, v):
+        pass
+
+    def _a_changed(self, new):
+        pass
+
+
+class LazyArgs(list):
+    """an exact argument tuple whose length and items are choices made only when the C code looks at them (so a call that is
+    refused on its arity never enumerates the values)"""
+    _vt_pytype = tuple
+
+    def __init__(self, ex, maxlen):
+        list.__init__(self)
+        self._ex, self._max = ex, maxlen
+        self._n = None
+        self._items = {}
+
+    def __len__(self):
+        if self._n is None:
+            self._n = self._ex.choice("nargs", self._max + 1)
+        return self._n
+
+    def __getitem__(self, i):
+        if isinstance(i, slice):
+            return tuple(self[j] for j in range(*i.indices(len(self))))
+        if i < 0:
+            i += len(self)
+        if not (0 <= i < len(self)):
+            raise IndexError(i)
+        if i not in self._items:
+            self._items[i] = _sweep_value(self._ex, "a%d" % i)
+        return self._items[i]
+
+    def __iter__(self):
+        return iter([self[j] for j in range(len(self))])
+
+
+def _sweep_value(ex, tag):
+    """one argument value from a pool that mixes the types the functions expect with ones they must refuse"""
+    k = ex.choice(tag, 10)
+    if k == 0:
+        return ex.int(tag + ".i")            # any integer: table indices, modes, flags
+    return [None, None, "name", True, 2.5, (1, 2), [], {"k": 1}, c03.A(), (lambda *a: None)][k]
+
+
+def sweep_harness(table, pyname, cname, flags):
+    def harness(ex):
+        o = _Sweep()
+        o.on_trait_change(lambda: None, "a")
+        it = cenv.new_interp()
+        if table.startswith("trait"):
+            tname = ["a", "l", "p", "n"][ex.choice("trait", 4)]
+            ct = o._trait(tname, 2)
+            recv = cenv.trait_struct_from_ctrait(it, ct)
+        elif table.startswith("has_traits"):
+            recv = cenv.hastraits_struct(it, o)
+        else:
+            recv = NULL                        # module-level function: `self` is the module, never touched
+        if flags == "getter":
+            args = [recv, NULL]
+        elif flags == "setter":
+            args = [recv, NULL if ex.flag("delete") else _sweep_value(ex, "v"), NULL]
+        elif flags & 4:                        # METH_NOARGS
+            args = [recv, NULL]
+        elif flags & 8:                        # METH_O
+            args = [recv, _sweep_value(ex, "v")]
+        else:                                  # METH_VARARGS
+            args = [recv, LazyArgs(ex, 4)]
+        before = {}
+        if isinstance(recv, Struct):
+            before = {f_: v_ for f_, v_ in recv.f.items()}
+        globals_before = dict(it.globals)
+        it.st.rc.clear()
+        problem = None
+        r = NULL
+        try:
+            with cenv.python_side_env():
+                r = it.call(cname, args)
+        except MemSafety as e:
+            problem = str(e)
+        ok_conv = True
+        if problem is None:
+            if flags == "setter":
+                if not isinstance(r, int) or (r != 0 and it.st.err is None) or (r == 0 and it.st.err is not None):
+                    problem = "setter returned %r with error indicator %r" % (r, it.st.err)
+            else:
+                if r is NULL and it.st.err is None:
+                    problem = "NULL returned without an exception set"
+                if r is not NULL and it.st.err is not None:
+                    problem = "value returned with an exception set"
+        ex.check(problem is None, "every function reachable through the method / getset / module tables is memory-safe and follows the "
+                                  "NULL / -1 <=> exception convention, for arguments of any type and arity")
+        if problem is None:
+            # what the receiver's record now points to is legitimately held (+1), what it no longer points to was released (-1)
+            held = {}
+            overwritten = set()      # what a field / global pointed to before the call overwrote it
+            if isinstance(recv, Struct):
+                for f_, v_ in recv.f.items():
+                    old = before.get(f_, NULL)
+                    if v_ is old or f_ in ("pyobj", "pytype", "flags", "default_value_type"):
+                        continue
+                    for val, d in ((v_, +1), (old, -1)):
+                        if val is NULL or isinstance(val, FnPtr) or val is Uninit:
+                            continue
+                        held[id(val)] = held.get(id(val), 0) + d
+                        if d < 0:
+                            overwritten.add(id(val))
+            # ... and so is what the module's global variables now point to (the registration functions)
+            for g_, v_ in it.globals.items():
+                old = globals_before.get(g_, NULL)
+                if v_ is old:
+                    continue
+                for val, d in ((v_, +1), (old, -1)):
+                    if val is NULL or val is Uninit or isinstance(val, (FnPtr, StaticArray, Struct)):
+                        continue
+                    held[id(val)] = held.get(id(val), 0) + d
+                    if d < 0:
+                        overwritten.add(id(val))
+            bad = []
+            immortal = (None, True, False, NotImplemented, Ellipsis)       # immortal under this build's headers (Py_RETURN_NONE is a plain return)
+            for oid, (obj_, d) in it.st.rc.items():
+                if any(obj_ is im for im in immortal):
+                    continue
+                want = (1 if (flags != "setter" and r is not NULL and obj_ is r) else 0) + held.get(oid, 0)
+                # the one-shot initialisers (delegate(), _set_property(), clone(), the module's registration hooks) do not
+                # release what they overwrite when called again: a leak only under re-initialisation, which the documented
+                # API never does - tolerated (and stated); an unbalanced RELEASE is never tolerated
+                if d != want and not (oid in overwritten and d == want + 1):
+                    bad.append("%s: delta %+d (expected %+d)" % (type(obj_).__name__ if not symx.is_proxy(obj_) else repr(obj_), d, want))
+            for oid, d in held.items():
+                if oid not in it.st.rc and d != 0 and not any(id(im) == oid for im in immortal) and not (d == -1 and oid in overwritten):
+                    bad.append("an object the record %s was never %s" % ("now holds" if d > 0 else "released", "acquired" if d > 0 else "released"))
+            ex.note("neutrality", bad[:4])
+            if bad and os.environ.get("VT_DEBUG_NEUTRAL"):
+                sys.stderr.write("NEUTRAL %s %s: %r\n" % (cname, dict(ex.values) if hasattr(ex, "values") else "", bad[:4]))
+            ex.check(not bad, "... and reference-neutral apart from what the receiver's record legitimately acquires or releases")
+        return {"fn": cname}
+    return harness
+
+
 def notify_mutation_harness(ex):
     """a handler that removes itself (or adds another one) while call_notifiers is dispatching"""
     trait_level = ex.flag("trait_level_handler_too")
@@ -689,6 +874,18 @@ def obligations(tier, build):
                                              "look-up natively)",
                           bounds={"instance mode": "symbolic Int in [-3, 3]", "delegate": "proper / None / attribute missing"},
                           leverage="the instance mode; otherwise choice feasibility"))
+    for table, pyname, cname, flags in method_tables(prog):
+        if cname in ("_trait_set_validate", "_has_traits_trait", "_trait_getstate", "_trait_setstate"):
+            continue          # their own, deeper obligations (subscript/*, access/trait-lookup, C14)
+        import props.c06 as c06
+        obs.append(Obligation("sweep/%s/%s" % (cname, flags if isinstance(flags, str) else "meth"), sweep_harness(table, pyname, cname, flags),
+                              env=c06.sym_env,       # constant-hash discipline: an integer proxy used as a dict key is compared, not hashed
+                              stubs=STUBS + c06.STUBS, witness_every=0,
+                              bounds={"function": cname, "python name": pyname, "table": table,
+                                      "arguments": "arity 0-4, each from a pool of 10 kinds; integers unbounded",
+                                      "receivers": "Int / List / Property / Any trait records, a HasTraits object with handlers"},
+                              leverage="integer arguments (table indices, modes, flags); otherwise choice feasibility",
+                              max_paths=30000, path_wall_s=120))
     obs.append(Obligation("access/delegate", delegate_access_harness, stubs=STUBS, witness_every=0,
                           bounds={"delegate": ["proper", "None", "lacks the attribute", "cycle (100 levels)"],
                                   "operations": ["read", "write valid", "write invalid", "delete"],
